@@ -26,7 +26,7 @@ RULE = (
     "application threads over {start, schedule p0|p1, unschedule p0, unschedule_all, stop, vanish = the root of p0 "
     "disappears}, optional re-entrant call from a callback, optional root disappearing from a separate thread, iteration "
     "order of the observer's emitter set; schedule).  Exhaustive: every single-thread sequence of length <= 3 (quick) "
-    "/ 4 (thorough) x 3 emitter kinds under the default schedule, and DFS with <= k preemptions (k=1/2) over 14 fixed "
+    "/ 4 (thorough) x 3 emitter kinds under the default schedule, and DFS with <= k preemptions (k=1/2) over 16 fixed "
     "programs; random: Hypothesis programs x random schedules; flood: a scripted emitter reporting 3000 (thorough 20000) "
     "changes in one pass while a callback or another thread calls unschedule_all / unschedule / stop / schedule.  "
     "non-trivial = >= 2 threads concurrently "
@@ -52,6 +52,7 @@ def make_main(prog):
         k = sk.new_kernel()
         for p in PATHS:
             k.fs_makedirs(p.encode() + b"/sub")
+        k.fs_makedirs(b"/elsewhere")
         v = vfs.VFS({"": ("d", 1, 1, 0, 0), "a": ("f", 2, 1, 0, 0)}, root="/w")
         v2 = vfs.VFS({"": ("d", 1, 1, 0, 0)}, root="/w2")
 
@@ -157,6 +158,13 @@ def make_main(prog):
                     k.op_create(b"/w/f1")
                 except OSError:
                     pass
+                if prog.get("move_out"):
+                    # a watched sub-directory leaves the tree: its IN_MOVED_FROM stays unmatched, 0.5 s later the
+                    # emitter drops the watches of what left
+                    try:
+                        k.op_rename(b"/w/sub", b"/elsewhere/sub")
+                    except (OSError, AttributeError, KeyError):
+                        pass
                 if prog.get("root_vanishes"):
                     if d2:
                         tm.sleep(d2)
@@ -216,6 +224,8 @@ def check(prog, r, s):
         cl.append("reentrant-call" + (":happened" if any(c[1] == "handler" for c in calls.values()) else ":not-reached"))
     if prog.get("root_vanishes"):
         cl.append("root-vanishes")
+    if prog.get("move_out") and prog["emitter"] == "inotify":
+        cl.append("directory-moved-out")
     if r.preemptions:
         cl.append(f"preemptions={min(r.preemptions, 3)}")
     cl.append("emitter:" + prog["emitter"])
@@ -228,8 +238,8 @@ def check(prog, r, s):
 ALPHA = [["start"], ["schedule", 0], ["schedule", 1], ["unschedule", 0], ["unschedule_all"], ["stop"], ["vanish"]]
 
 
-def P(emitter, threads, reentrant=None, root_vanishes=False, fs_delay=0.5, vanish_delay=0.5, settle=3.0, good_first=False):
-    return {"emitter": emitter, "threads": threads, "reentrant": reentrant, "root_vanishes": root_vanishes, "fs_delay": fs_delay, "vanish_delay": vanish_delay, "settle": settle, "good_first": good_first}
+def P(emitter, threads, reentrant=None, root_vanishes=False, fs_delay=0.5, vanish_delay=0.5, settle=3.0, good_first=False, move_out=False):
+    return {"emitter": emitter, "threads": threads, "reentrant": reentrant, "root_vanishes": root_vanishes, "fs_delay": fs_delay, "vanish_delay": vanish_delay, "settle": settle, "good_first": good_first, "move_out": move_out}
 
 
 FIXED = [
@@ -250,6 +260,9 @@ FIXED = [
     P("inotify", [[["schedule", 0], ["schedule", 1], ["vanish"], ["start"], ["start"]]], good_first=False),
     P("inotify", [[["schedule", 0], ["schedule", 1], ["vanish"], ["start"], ["unschedule", 0], ["start"]], [["start"]]], good_first=True),
     P("polling", [[["schedule", 0], ["schedule", 1], ["vanish"], ["start"], ["start"]]]),
+    # a watched sub-directory is moved out of the tree; stop() after, and around, the moment its watches are dropped
+    P("inotify", [[["schedule", 0], ["start"]]], move_out=True, settle=3.0),
+    P("inotify", [[["schedule", 0], ["start"]], [["unschedule", 0]]], move_out=True, fs_delay=0.0, settle=0.5),
 ]
 
 
@@ -267,6 +280,7 @@ def programs(draw):
         vanish_delay=draw(st.sampled_from([0.0, 0.5])),
         settle=draw(st.sampled_from([0.0, 3.0, 3.0])),
         good_first=draw(st.booleans()),
+        move_out=draw(st.sampled_from([False, False, True])),
     )
 
 
